@@ -1,4 +1,5 @@
 import Bw.Pipeline
+import Bw.Lemmas.MainFlow
 import Bw.Lemmas.Flags
 import Bw.Detect
 /-! # C14 — --enable / --disable select validators without side effects -/
@@ -433,5 +434,20 @@ theorem flags_ok_start_verbatim (rawE en dis : List Text) (exts : List (Text × 
     (hnot : en = [] ∨ dis = []) :
     ∃ o, Flags.startup rawE en dis = .ok o ∧ o.enabled = en ∧ o.disabled = dis ∧ o.extra = Flags.extensionsMap exts :=
   Flags.startup_ok rawE en dis exts hE hsup hen hdis hnot
+
+/-! ### the sequencing of `main` (model `Bw.MainFlow`) -/
+
+/-- **rejected before anything is validated**: with refused option values the outcome of `main` is the rejection, whatever
+    the files, the diff, the regex engine and the scripts are -/
+theorem invalid_options_rejected_before_anything (cfg cfg' : Tag.Cfg) (re re' : Regex) (oracle oracle' : AsyncOracle)
+    (rawE en dis : List Text) (list list' : Bool) (inp inp' : MainFlow.Input) (e : Flags.FlagErr)
+    (h : Flags.startup rawE en dis = .error e) :
+    MainFlow.run cfg re oracle rawE en dis list inp = .rejected e ∧
+    MainFlow.run cfg re oracle rawE en dis list inp = MainFlow.run cfg' re' oracle' rawE en dis list' inp' :=
+  MainFlow.rejected_before_anything cfg cfg' re re' oracle oracle' rawE en dis list list' inp inp' e h
+
+theorem both_flags_never_validate (cfg : Tag.Cfg) (re : Regex) (oracle : AsyncOracle) (rawE en dis : List Text) (list : Bool)
+    (inp : MainFlow.Input) (he : en ≠ []) (hd : dis ≠ []) : ∃ e, MainFlow.run cfg re oracle rawE en dis list inp = .rejected e :=
+  MainFlow.both_flags_never_validate cfg re oracle rawE en dis list inp he hd
 
 end Bw.Props.C14
